@@ -93,7 +93,7 @@ def invalid_reason(m):
             except TypeError:
                 return 'data not iterable'
             for b in items:
-                if type(b) is not int or not 0 <= b <= 127:
+                if isinstance(b, bool) or not isinstance(b, int) or not 0 <= b <= 127:
                     return f'sysex data byte {b!r}'
         else:
             lo, hi = RANGES[n]
